@@ -116,3 +116,25 @@ package beacon
 
 // Assumed: these accessors of an index only read.
 //@ pureiface Beacon Get Is Count
+
+// SelectExpiredForPatchWithCap (properties C12, C11, C30): like SelectExpiredForPatch, narrowed by a
+// selection predicate and bounded by the cap budget computed under the same lock: with a cap, never
+// more than capMax records are selected (the budget is capMax minus a non-negative count), whatever
+// howMany is (howMany <= 0 means "no per-call limit", not "no cap").
+//@ func (*beacon).SelectExpiredForPatchWithCap(b, howMany, selectionPredicate, capPredicate, capMax) (out, capReached)
+//@   property C12 C30 C11
+//@   nopanic
+//@   overflow: assumed
+//@   requires[records] forall i in 0..len(b.treasuresByOrder): b.treasuresByOrder[i] != nil
+//@   requires[key_map] forall k in keys(b.treasuresByKeys): b.treasuresByKeys[k] != nil
+//@   modifies *
+//@   loop 0 invariant[count_nonneg] currentMatching >= 0
+//@   loop 1 invariant[counter] counter == len(selected) && counter >= 0 && counter <= effectiveHowMany && (capPredicate != nil ==> effectiveHowMany <= max(capMax, 0) || counter == 0 && effectiveHowMany <= 0)
+//@   loop 1 invariant[partition] len(selected) + len(remainingTreasures) == rangeindex + 1
+//@   loop 1 invariant[index_untouched] forall i in 0..len(b.treasuresByOrder): b.treasuresByOrder[i] == old(b.treasuresByOrder[i])
+//@   loop 1 invariant[outputs_private] (!isnil(selected) ==> fresh(selected)) && (!isnil(remainingTreasures) ==> fresh(remainingTreasures)) && (!isnil(selected) && !isnil(remainingTreasures) ==> sliceid(selected) != sliceid(remainingTreasures))
+//@   loop 1 invariant[selected_expired] forall i in 0..len(selected): expired(selected[i], now)
+//@   csensures[never_more_than_cap] capPredicate != nil ==> len(out) <= max(capMax, 0)
+//@   csensures[at_most_requested] howMany > 0 ==> len(out) <= howMany
+//@   csensures[only_expired] forall i in 0..len(selected): expired(selected[i], now)
+//@   csensures[nothing_lost] len(selected) + len(b.treasuresByOrder) == old(len(b.treasuresByOrder))
